@@ -2,6 +2,7 @@
 """C19 Identical results across processes, hash seeds, repeated calls -- structural clauses."""
 from ..r_canon import rule_hash_inputs, rule_order_free_hash, rule_no_ambient_nondeterminism
 from ..r_construct import rule_literal_keys, rule_keep_lists
+from ..r_alias import rule_no_mutation_of_cached
 
 LEVEL = 'other'
 
@@ -16,3 +17,4 @@ def run(ck, repo):
     # D4: first call == cached call; copy transfers only structure caches
     rule_literal_keys(ck, repo)
     rule_keep_lists(ck, repo)
+    rule_no_mutation_of_cached(ck, repo, 'C19.D4-cached-value-not-mutated')
